@@ -25,13 +25,14 @@ from common import *
 import runner
 
 ID = "C17"
-LEAN_MODULES = ["Properties.C17"]
+LEAN_MODULES = ["Properties.C17", "Properties.C17Tables"]
 THEOREMS = ["EngineModel.Properties.C17." + t for t in [
     "walk_complete", "walk_open", "walk_mono",
     "verifyDb_iff", "verifyDb_expOf_iff", "expOf_closed", "sameCat_refl", "verifyDb_expOf_self",
     "mutation_deviates", "mutation_changes", "C17_complete_validator_rejects",
     "C17_closed_tables_unique", "C17_closed_tables_complete",
-    "open_block_counterexample", "uncovered_index_counterexample", "sameCat_iff_plain"]]
+    "open_block_counterexample", "uncovered_index_counterexample", "sameCat_iff_plain"]] + [
+    "EngineModel.Properties.C17Tables." + t for t in ["tables_closed", "C17_tables_complete", "C17_tables_unique"]]
 ASSUMPTIONS = [
     "what verify() can look at is the structural catalog: sqlite_master names of tables and views, PRAGMA table_info "
     "of tables, PRAGMA index_list / index_info; SQLite's answers to these are trusted (read through the C API by "
@@ -51,13 +52,18 @@ MANIFEST = dict(
          "column incl. type, nullability, default, pk; drop/add/replace index incl. uniqueness and column list - changes the catalog's "
          "structure), C17_closed_tables_unique / C17_closed_tables_complete: ANY closed expectation table (all blocks terminated, every "
          "listed table and index described) that accepts a well-formed catalog rejects every applicable single-element mutation of it; "
-         "counterexamples for an open block and an uninspected index. That each version's hand-written tables are closed and describe the "
-         "created catalog is decided by exhaustive enumeration on the real code: every single-element mutation of the created catalog "
+         "counterexamples for an open block and an uninspected index. The hand-written tables of every version are extracted from "
+         "schema_*.cpp on every run (tools/tr_validators.py: regex translator with virtual dispatch resolved, fails closed) into "
+         "Gen/ValidatorTables.lean; tables_closed (decide +kernel) + C17_tables_complete: the real tables of all versions reject every "
+         "single-element mutation of any well-formed catalog they accept; that they accept (and equal expOf of) the catalog their creator "
+         "creates is evaluated every run, and the Lean model of the real validator must agree with the real verify() on every mutant. "
+         "Decision on the real code: every single-element mutation of the created catalog "
          "(about 1000-1250 per version; all 18 versions in thorough tier, 3 complete + a stratified sample of the rest in quick tier) is "
          "rebuilt from mutated DDL and the real verify() must throw database_inconsistency exactly when the catalog read back deviates "
          "(decided by the Lean model); created, rebuilt-unmutated and all 57 reference libraries must pass.",
     note="Trusted: Lean kernel; SQLite's PRAGMAs; harness/djv_verify.cpp; the DDL regenerator of the plugin (self-checked each run). "
-         "Exhaustive finite enumeration + generic theorems, not a proof about the ~10k lines of expectation tables themselves. Triggers, "
+         "The theorems cover the expectation tables as extracted (translator trusted, checked differentially on every mutant) and the generic "
+         "walk; SQLite's PRAGMA semantics and the std::set wrappers are modelled. Triggers, "
          "view bodies, column order and SQLite's own tables are outside the property.",
     technique="Lean 4 theorems over a model of the generic validator + exhaustive single-element mutation of the created catalog "
               "against the real verify(), verdict decided by the Lean model on the catalog read back",
@@ -65,6 +71,14 @@ MANIFEST = dict(
 TRUSTED_EXTRA = ["harness/djv_verify.cpp (rebuild from DDL, structural catalog reader) and the DDL regenerator of tools/props/C17.py "
                  "(self-checked on every run: the unmutated regeneration of every table reproduces the created catalog)"]
 STATELESS = False
+
+
+def _translate():
+    r = run([sys.executable, os.path.join(VERIF, "tools", "tr_validators.py")])
+    return (r.stdout.strip() or r.stderr.strip())[:300]
+
+
+TRANSLATORS = {"schema_*.cpp validators": _translate}
 
 SCHEMAS = ["schema_1_6_0", "schema_1_7_1", "schema_1_9_1", "schema_1_11_1", "schema_1_13_0", "schema_1_13_1",
            "schema_1_13_2", "schema_1_15_0", "schema_1_17_0", "schema_1_18_0_desktop", "schema_1_18_0_os",
@@ -449,6 +463,30 @@ def enumerate_mutants(lib):
     return out
 
 
+def exp_text(a):
+    """the extracted expectation tables of one database file in the driver's text form (pDbExp)"""
+    def lst(xs, f):
+        return "%d%s" % (len(xs), "".join(" " + f(x) for x in xs))
+    def te(t):
+        return "%s %s %d %s %d %s" % (
+            hexs(t["name"]),
+            lst(t["cols"], lambda c: "%s %s %d %s %d" % (hexs(c[0]), hexs(c[1]), c[2], hexs(c[3]), c[4])), int(t["colsNoMore"] and t["hasCols"]),
+            lst(t["idxs"], lambda i: "%s %d %s %d" % (hexs(i[0]), i[1], hexs(i[2]), i[3])), int(t["idxsNoMore"] and t["hasIdxs"]),
+            lst(t["idxCols"], lambda x: "%s %s %d" % (hexs(x[0]), lst(x[1], lambda c: "%d %s" % (c[0], hexs(c[1]))), int(x[2]))))
+    return "%s %d %s %d %s" % (lst(a["tables"], hexs), int(a["tablesNoMore"]), lst(a["views"], hexs), int(a["viewsNoMore"]),
+                               lst(a["perTable"], te))
+
+
+def extracted_tables():
+    """{schema: {label: assembled tables}} from tools/tr_validators.py, or (None, reason)"""
+    try:
+        import tr_validators
+        versions = tr_validators.translate()
+        return {v: tr_validators.assemble(b) for v, b in versions.items()}, "ok"
+    except Exception as e:      # Unsupported or anything else: fail closed
+        return None, "unsupported: %s" % (e,)
+
+
 def mut_line(m):
     return "sv.mut %s %d %s %d %s %d %s" % (
         m["label"], len(m["omit"]), " ".join(str(i) for i in m["omit"]),
@@ -470,7 +508,7 @@ def mutated_ddl(lib, m):
 RES = re.compile(r"^ok load=(\S+) pub=(\S+) int=(\S+) trigskip=(\d+) (minus .*)$")
 
 
-def run_schema(schema, select, ctx):
+def run_schema(schema, select, ctx, extracted=None):
     """Create the schema with the real code, enumerate, select, run.  Returns dict."""
     base = ["create %s disk" % schema, "sv.base"]
     outs, _ = runner.run_harness_script(base, watchdog=60)
@@ -491,17 +529,28 @@ def run_schema(schema, select, ctx):
     for (o, rep), sh in zip(hres, shards):
         houts += o[2:2 + len(sh)]
     mlines = ["#mode schema", "c17.base b " + cat_text]
+    exp = (extracted or {}).get(schema)
+    if exp:
+        for label in sorted(exp):
+            mlines.append("c17.exp b %s %s" % (label, exp_text(exp[label])))
+    npre = len(mlines)
     parsed = []
     for l, o, m in zip(lines, houts, [None] + muts):
         mm = RES.match(o)
         parsed.append(mm)
         if mm:
             mlines.append("c17.mut b %s %s" % ((m["lean"] if m else "-"), mm.group(5)))
-    mshards = runner.shard(mlines[2:], max(1, min(NCPU, 1 + len(mlines) // 100)))
-    mres = runner.run_model([mlines[:2] + sh for sh in mshards])
+    mshards = runner.shard(mlines[npre:], max(1, min(NCPU, 1 + len(mlines) // 100)))
+    mres = runner.run_model([mlines[:npre] + sh for sh in mshards])
     mouts = []
     for o, sh in zip(mres, mshards):
-        mouts += o[2:2 + len(sh)]
+        mouts += o[npre:npre + len(sh)]
+    if exp and mres:
+        for l, ans in zip(mlines[2:npre], mres[0][2:npre]):
+            res["hist"]["extracted-tables:" + ans[3:]] = res["hist"].get("extracted-tables:" + ans[3:], 0) + 1
+            if ans != "ok closed=true accepts=true expOf=true":
+                res["divergences"].append({"input": "%s %s" % (schema, l[:40]), "impl": "(tables extracted from schema_*.cpp)",
+                                           "model": "the extracted tables should be closed, accept the created catalog and equal expOf: " + ans[:120]})
     mi = 0
     H = res["hist"]
 
@@ -542,6 +591,14 @@ def run_schema(schema, select, ctx):
         else:
             res["nontrivial"].add(hashlib.sha1(delta.encode()).hexdigest())
         want = "inconsistency" if deviates else "ok"
+        verdict = pub if pub != "na" else intl
+        if f.get("real", "na") != "na":
+            # the Lean model of the REAL validator (generic walk over the tables extracted from schema_*.cpp) vs the real code
+            agree = (f["real"] == "true") == (verdict == "ok")
+            bump("model-of-real-validator:" + ("agrees" if agree else "DIFFERS"))
+            if not agree:
+                res["divergences"].append({"input": "%s %s: %s" % (schema, kind, what), "impl": "verify(): " + verdict,
+                                           "model": "verifyDb <extracted tables> says accepts=%s" % f["real"]})
         bad = []
         # the verdict is database::verify()'s whenever load_database() got that far; the validator of the
         # created version run directly on the library's kind of connection decides the rest (a mutant whose
@@ -636,8 +693,9 @@ def tie(ctx):
     n, nontrivial, enumerated = 0, 0, {}
     from concurrent.futures import ThreadPoolExecutor
     sels = {s: selector(s) for s in SCHEMAS}       # built in a fixed order: the sample depends on the seed only
+    extracted, tr_status = extracted_tables()
     with ThreadPoolExecutor(3) as ex:
-        results = list(ex.map(lambda s: run_schema(s, sels[s], ctx), SCHEMAS))
+        results = list(ex.map(lambda s: run_schema(s, sels[s], ctx, extracted), SCHEMAS))
     for s, r in zip(SCHEMAS, results):
         violations += r["violations"]
         divergences += r["divergences"]
@@ -670,7 +728,8 @@ def tie(ctx):
         "violations": violations[:25],
         "exhaustive": ctx.tier == "thorough",
         "extra": {"mutants_run_of_enumerated": enumerated, "complete_enumeration_on": sorted(full),
-                  "reference_libraries": nrefs, "wall_tie_s": round(time.time() - t0, 1)},
+                  "reference_libraries": nrefs, "wall_tie_s": round(time.time() - t0, 1),
+                  "validator_tables_translator": tr_status},
     }
 
 
